@@ -23,22 +23,23 @@ import (
 func init() { logx.Disable() }
 
 func c02BuildGuards(c c02Case, h http.HandlerFunc) (func(int, http.ResponseWriter, *http.Request), error) {
-	var routes []http.Handler
-	for i := range c.R {
+	var routes []http.Handler // one composition per (server, route) slot
+	for sl := 0; sl < c.slots(); sl++ {
+		sv, i := sl/len(c.R), sl%len(c.R)
 		var hd http.Handler = h
 		hd = GunzipHandler(hd) // gzip request bodies reach the handler programs decompressed, as in the engine chain
-		hd = MaxBytesHandler(int64(c.maxBytes(i)))(hd)
+		hd = MaxBytesHandler(int64(c.maxBytes(sv, i)))(hd)
 		if !c.NR {
 			hd = RecoverHandler(hd)
 		}
-		hd = TimeoutHandler(time.Duration(c.timeoutTicks(i)) * c02Tick)(hd)
-		hd = MaxConns(c.MC)(hd)
+		hd = TimeoutHandler(time.Duration(c.timeoutTicks(sv, i)) * c02Tick)(hd)
+		hd = MaxConns(c.cfg(sv).MC)(hd)
 		routes = append(routes, hd)
 	}
 	return func(rt int, w http.ResponseWriter, r *http.Request) { routes[rt].ServeHTTP(w, r) }, nil
 }
 
 func TestVerif_C02_rest_guards_race(t *testing.T) {
-	kit.Run(t, "C02", "rest-guards-race", kit.Opts{Quick: 3000, Thorough: 64000}, c02GenFor(true),
+	kit.Run(t, "C02", "rest-guards-race", kit.Opts{Quick: 2000, Thorough: 48000}, c02GenFor(true),
 		func(c c02Case) kit.Verdict { return c02Run(t, c, c02BuildGuards, false) })
 }
